@@ -93,7 +93,18 @@ func sin2Within(xi, xs exact.Vec) (bool, float64) {
 	return ok, r
 }
 
-// bigRatio returns float64(sqrt(a/b)) computed without under/overflow.
+// scaledFloat returns x·2^e as a float64 without intermediate over/underflow.
+func scaledFloat(x *big.Float, e int) float64 {
+	if x.Sign() == 0 {
+		return 0
+	}
+	m := new(big.Float)
+	ex := x.MantExp(m)
+	f, _ := m.Float64()
+	return math.Ldexp(f, ex+e)
+}
+
+// bigSqrtRatio returns float64(sqrt(a/b)) computed without under/overflow.
 func bigSqrtRatio(a, b *big.Int) float64 {
 	if b.Sign() == 0 {
 		return math.Inf(1)
@@ -166,6 +177,14 @@ func lenBucket(l float64) string {
 }
 
 func checkQuad(c quad) ev.Outcome {
+	o := checkQuadInner(c)
+	if o.Err != "" {
+		o.Ratios = nil // worst ratios are evidence about passing cases only
+	}
+	return o
+}
+
+func checkQuadInner(c quad) ev.Outcome {
 	p := [4]s2.Point{c.A0.Pt(), c.A1.Pt(), c.B0.Pt(), c.B1.Pt()}
 	o := ev.Outcome{}
 	for _, q := range p {
@@ -241,19 +260,58 @@ func checkQuad(c quad) ev.Outcome {
 	o.Counts = map[string]int{"path-" + path: 1}
 	o.Ratios = map[string]float64{}
 
-	// an edge within 16·2⁻⁵³ of 180°: a0+a1 is then of the size of the rounding
-	// errors of the endpoints, which the hemisphere correction relies on.
-	nearAntipodal := math.Min(a0.Add(a1.Vector).Norm(), b0.Add(b1.Vector).Norm()) < 0x1p-49
+	// The hemisphere correction in Intersection relies on X·(a0+a1+b0+b1) > 0.
+	// The inputs are unit only to within 2ε in length (8ε over four points) and
+	// the sum and dot product round (≈6ε), X is off by ≤ 2⁻⁵⁰·|sum|: when the exact
+	// value of X̂*·(a0+a1+b0+b1) is below 16ε = 2⁻⁴⁸ its computed sign is noise.
+	// That needs an edge within ~1e-7 of 180° crossed next to one of its endpoints.
+	// two endpoints of different edges that are the same point of the sphere
+	// but different vectors (same direction, lengths differing within the unit
+	// tolerance): CrossingSign does not treat them as a shared vertex.
+	sameDir := false
+	for _, i := range []int{0, 1} {
+		for _, j := range []int{2, 3} {
+			if exact.IsZero(exact.Cross(vs[i], vs[j])) && exact.Dot(vs[i], vs[j]).Sign() > 0 {
+				sameDir = true
+			}
+		}
+	}
+	S := exact.Add(exact.Add(A0, A1), exact.Add(B0, B1))
+	hemiIll := false
+	if !collinear {
+		// |X̂*·sum|² = (xs·S)² / |xs|² · 2^(2E)
+		d := exact.Dot(xs, S)
+		q := new(big.Float).SetPrec(128).Quo(new(big.Float).SetPrec(128).SetInt(new(big.Int).Mul(d, d)), new(big.Float).SetPrec(128).SetInt(xs2))
+		hemiIll = math.Sqrt(scaledFloat(q, 2*E)) < 0x1p-48
+	} else {
+		for _, q := range vs {
+			// q·sum = (q·S)·2^(2E); q is unit to within 2ε
+			f := scaledFloat(new(big.Float).SetPrec(128).SetInt(exact.Dot(q, S)), 2*E)
+			if math.Abs(f) < 0x1p-48 {
+				hemiIll = true
+			}
+		}
+	}
+	// Finding classes: one per root cause, each restricted to the region of the
+	// input space (computed exactly from the case) where that cause applies.
 	finding := func(kind string) string {
 		switch {
-		case !collinear && !underflow && nearAntipodal && kind == "wrong-hemisphere":
-			return "antipodal-wrong-hemisphere"
+		case collinear && kind == "order" && sameDir:
+			return "collinear-samedir-order"
+		case hemiIll && (kind == "wrong-hemisphere" || kind == "negated-endpoint"):
+			return "antipodal-hemisphere"
 		case collinear && normalUnderflow:
-			return "collinear-nuf-" + kind
+			// collinear branch of intersectionExact with an edge normal whose
+			// float64 conversion underflows
+			return "collinear-normal-underflow"
+		case collinear && kind == "order":
+			return "collinear-order"
 		case collinear:
-			return "collinear-" + kind
+			return ""
+		case underflow && stableOK:
+			return "stable-underflow"
 		case underflow:
-			return "underflow-" + kind
+			return "exact-underflow"
 		}
 		return ""
 	}
@@ -284,9 +342,9 @@ func checkQuad(c quad) ev.Outcome {
 		}
 		XI := exact.IntVec(xi.Vector)
 		if collinear {
-			if msg := judgeCollinear(xi, p, vs); msg != "" {
+			if msg, kind := judgeCollinear(xi, p, vs); msg != "" {
 				o.Err = fmt.Sprintf("Intersection%s = (%g,%g,%g): %s", formNames[i], xi.X, xi.Y, xi.Z, msg)
-				o.Finding = finding("inaccurate")
+				o.Finding = finding(kind)
 				return o
 			}
 			continue
@@ -312,9 +370,6 @@ func checkQuad(c quad) ev.Outcome {
 			o.Err = fmt.Sprintf("Intersection%s = (%v,%v,%v) but Intersection%s = (%v,%v,%v) (path %s, collinear=%v)",
 				formNames[0], x.X, x.Y, x.Z, formNames[i], res[i].X, res[i].Y, res[i].Z, path, collinear)
 			o.Finding = finding("order")
-			if o.Finding == "" {
-				o.Finding = "order-" + path
-			}
 			return o
 		}
 	}
@@ -369,14 +424,14 @@ func judgeStage(x s2.Point, xs exact.Vec) (string, float64) {
 
 // judgeCollinear: the edges are exactly collinear; x must be an endpoint that
 // lies in the closed other edge, or at least lie within the bound of both edges.
-func judgeCollinear(x s2.Point, p [4]s2.Point, vs []exact.Vec) string {
+func judgeCollinear(x s2.Point, p [4]s2.Point, vs []exact.Vec) (msg, kind string) {
 	other := [4][2]int{{2, 3}, {2, 3}, {0, 1}, {0, 1}}
 	for i := 0; i < 4; i++ {
 		if x == p[i] {
 			if inClosedEdge(vs[i], vs[other[i][0]], vs[other[i][1]]) {
-				return ""
+				return "", ""
 			}
-			return fmt.Sprintf("it is endpoint %d, which does not lie on the other edge (edges are exactly collinear)", i)
+			return fmt.Sprintf("it is endpoint %d, which does not lie on the other edge (edges are exactly collinear)", i), "inaccurate"
 		}
 	}
 	// not an endpoint: accept any point within the bound of both edges.
@@ -385,10 +440,16 @@ func judgeCollinear(x s2.Point, p [4]s2.Point, vs []exact.Vec) string {
 	for e := 0; e < 2; e++ {
 		d2, _ := hp.PointEdgeChord2(xv, hp.Vec(p[2*e].Vector), hp.Vec(p[2*e+1].Vector))
 		if d2.Cmp(lim) > 0 {
-			return fmt.Sprintf("not an endpoint and %.4g × (8·2⁻⁵³ rad) away from edge %d (edges are exactly collinear)", math.Sqrt(hp.Float(d2))*0x1p50, e)
+			kind = "inaccurate"
+			for i := 0; i < 4; i++ {
+				if x.Vector == p[i].Mul(-1) && inClosedEdge(vs[i], vs[other[i][0]], vs[other[i][1]]) {
+					kind = "negated-endpoint"
+				}
+			}
+			return fmt.Sprintf("not an endpoint (%s) and %.4g × (8·2⁻⁵³ rad) away from edge %d (edges are exactly collinear)", kind, math.Sqrt(hp.Float(d2))*0x1p50, e), kind
 		}
 	}
-	return ""
+	return "", ""
 }
 
 // ---------------------------------------------------------------------------
@@ -446,6 +507,13 @@ func genOnSphere(t *rapid.T, antipodal bool) quad {
 		dB = dA.Add(x.Cross(dA).Mul(th)).Normalize()
 	}
 	sa0, sa1, sb0, sb1 := dist(t, "sa0"), dist(t, "sa1"), dist(t, "sb0"), dist(t, "sb1")
+	if !antipodal && rapid.IntRange(0, 2).Draw(t, "short") == 0 {
+		// short edges of one common scale (the regime of real data, where the
+		// stable path is the one that answers)
+		sc := pow10(t, "scale", -12, -0.3)
+		f := func(l string) float64 { return sc * rapid.Float64Range(0.05, 1).Draw(t, l) }
+		sa0, sa1, sb0, sb1 = f("fa0"), f("fa1"), f("fb0"), f("fb1")
+	}
 	if antipodal {
 		// edge a spans nearly 180°: sa0 + sa1 = π − δ
 		sa1 = math.Pi - sa0 - pow10(t, "delta", -17, -1)
@@ -543,7 +611,7 @@ func collinear4(t *rapid.T) (pts [4]s2.Point) {
 	lo := -300.0
 	if !axisMode {
 		t0 = rapid.Float64Range(0, math.Pi/2).Draw(t, "t0")
-		lo = -16
+		lo = -15
 	}
 	pos := make([]float64, 4)
 	for i := range pos {
@@ -564,13 +632,17 @@ func collinear4(t *rapid.T) (pts [4]s2.Point) {
 
 func genCollinear(t *rapid.T) quad {
 	p := collinear4(t)
-	switch rapid.IntRange(0, 3).Draw(t, "pair") {
+	// nested pairs cross only when the symbolic perturbation says so (mostly
+	// not), so they are drawn less often than interleaved ones.
+	switch rapid.IntRange(0, 7).Draw(t, "pair") {
 	case 0:
 		return mkQuad(p[0], p[3], p[1], p[2]) // nested
 	case 1:
 		return mkQuad(p[1], p[2], p[3], p[0]) // nested, roles swapped
-	case 2:
+	case 2, 3:
 		return mkQuad(p[2], p[0], p[1], p[3]) // interleaved, a reversed
+	case 4:
+		return mkQuad(p[1], p[3], p[2], p[0]) // interleaved, roles swapped, b reversed
 	default:
 		return mkQuad(p[0], p[2], p[1], p[3]) // interleaved
 	}
@@ -748,11 +820,11 @@ const ruleCommon = " Kept only when CrossingSign==Cross (the documented domain).
 func init() {
 	ev.Define("generic", ev.Options{
 		Rule: "Constructed crossings: crossing point X from the shared point families, two tangent directions at 90°…1e-15, four endpoint distances (uniform, log-uniform 1e-17…π/2, π/2−1e-17…); edges of nearly 180° (endpoints within 1e-17…0.1 of antipodal); a0,a1,b0 from the related-point generator with b1 beyond a point of edge a; b0 exactly on the great circle of a (SoS-decided crossings at an endpoint); exactly collinear quadruples with 1–3 points moved by ≤3 ulps." + ruleCommon,
-		Quick: 56000, Thorough: 2600000}, genGeneric, checkQuad)
+		Quick: 250000, Thorough: 10000000}, genGeneric, checkQuad)
 	ev.Define("tiny_edges", ev.Options{
 		Rule: "Edges of length 1e-300…1e-9: all four endpoints (1,y,z) in the tangent plane next to a coordinate axis (crossing point 0 or tiny, any direction, crossing angle 90°…1e-15, four independent or common-scale distances, optionally far second endpoints), and a long edge exactly in a coordinate plane crossed by a tiny edge (x,y,∓t) at the start, middle or end of the long edge; all under signed axis permutations." + ruleCommon,
-		Quick: 32000, Thorough: 1600000}, genTiny, checkQuad)
+		Quick: 150000, Thorough: 6000000}, genTiny, checkQuad)
 	ev.Define("collinear", ev.Options{
 		Rule: "Four points exactly on one great circle (9 planes that survive normalisation; positions ±1e-300…1.5 from an axis or ±1e-16…1.5 from a generic angle), paired interleaved or nested. X* = 0: the result must be an endpoint lying on the closed other edge (exact) or within the bound of both edges, identical in all 8 forms." + ruleCommon,
-		Quick: 16000, Thorough: 800000}, genCollinear, checkQuad)
+		Quick: 60000, Thorough: 2500000}, genCollinear, checkQuad)
 }
